@@ -1,9 +1,12 @@
 (* C18 -- operators on outputs mean what they mean in Python; no duplicates, no mix-ups.
-   Model: Inject.v (injection.py / single_output.py / the operator nodes of standard.py).
+   Model: Inject.v (injection.py / single_output.py / the operator nodes of standard.py, as repaired:
+   operands rendered with repr, autorun only when the connected operands hold data, Slice = slice(...)).
    Only Theorem / exact / Print Assumptions live here; proofs are in InjectProofs.v.
 
-   CPython's operators [pyop], [str()] of raw operands [py_str], [is None] and the [hash] of the
-   nominal label are universally quantified: every theorem holds for all of them. *)
+   CPython's operators [pyop], [repr()] of raw operands [py_repr] and the [hash] of the nominal label are
+   universally quantified: every theorem holds for all of them.  "Expressions" are requests (class,
+   receiver channel, operands); a nested expression is a request whose receiver / operands are the
+   channels of nodes that earlier requests returned. *)
 From PW Require Import Base Inject InjectProofs.
 
 (* C18_table.  Every one of the 30 entry points of an output channel, and the same-named method
@@ -19,16 +22,15 @@ Print Assumptions C18_table.
 Section C18.
   Variable val : Type.
   Variable pyop : pyfun -> list val -> val + string.
-  Variable py_str : val -> string.
-  Variable is_none : val -> bool.
+  Variable py_repr : val -> string.
   Variable none_val : val.
   Variable hash : string -> string.
 
-  Notation inject := (inject val pyop py_str is_none none_val hash).
-  Notation run_own := (run_own val pyop is_none none_val).
-  Notation pull := (pull val pyop is_none none_val).
-  Notation hist := (hist val pyop py_str is_none none_val hash).
-  Notation inj_label := (inj_label val py_str hash).
+  Notation inject := (inject val pyop py_repr none_val hash).
+  Notation run_own := (run_own val pyop none_val).
+  Notation pull := (pull val pyop none_val).
+  Notation hist := (hist val pyop py_repr none_val hash).
+  Notation inj_label := (inj_label val py_repr hash).
 
   (* C18_wiring.  A lookup miss (or no parent at all) creates ONE new node, of the requested class,
      under the computed label, wired receiver-first then the operands in the written order. *)
@@ -38,7 +40,16 @@ Section C18.
     n = List.length (s_nodes val st) /\
     option_map (nskel val) (nth_error (s_nodes val st') n) =
       Some (inj_label st q, q_cls val q, q_inputs val q).
-  Proof. exact (inject_fresh_record val pyop py_str is_none none_val hash). Qed.
+  Proof. exact (inject_fresh_record val pyop py_repr none_val hash). Qed.
+
+  (* ... and it is not run before every connected operand holds data (no parameter default stands in
+     for an operand that is merely not available yet) *)
+  Theorem C18_autorun_waits : forall st q st' n o,
+    inject st q = (st', n, o) ->
+    (s_parent val st = false \/ find_label val (inj_label st q) (s_nodes val st) 0 = None) ->
+    holds_data val (grown val py_repr hash st q) (q_inputs val q) = false ->
+    st' = grown val py_repr hash st q /\ o = Done.
+  Proof. exact (inject_waits val pyop py_repr none_val hash). Qed.
 
   (* C18_value.  Whenever a node created through entry point e runs on input values vals (at creation
      time or as the last act of a pull), its output channel receives the python operation of e applied
@@ -51,14 +62,19 @@ Section C18.
     | inr x => exists st', run_own st n = (st', RRaise x) /\
                            option_map (n_failed val) (nth_error (s_nodes val st') n) = Some true
     end.
-  Proof. exact (value_spec val pyop is_none none_val). Qed.
+  Proof. exact (value_spec val pyop none_val). Qed.
 
   Theorem C18_pull_value : forall st n st' v,
     pull st n = (st', PVal v) ->
     exists st1 r vals, same_skel val st st1 /\ nth_error (s_nodes val st1) n = Some r /\
       input_values val none_val st1 (n_cls val r) (n_in val r) = Some vals /\
-      node_apply val pyop is_none (n_cls val r) vals = inl v /\ chan_value val st' (CN n) = Some v.
-  Proof. exact (pull_value_spec val pyop is_none none_val). Qed.
+      node_apply val pyop (n_cls val r) vals = inl v /\ chan_value val st' (CN n) = Some v.
+  Proof. exact (pull_value_spec val pyop none_val). Qed.
+
+  (* slicing with a channel among the members: the Slice node IS python's slice(start, stop, step) *)
+  Theorem C18_slice : forall start stop step,
+    slice_fun val pyop [start; stop; step] = pyop PSliceCtor [start; stop; step].
+  Proof. exact (slice_fun_spec val pyop). Qed.
 
   (* C18_reuse.  In a parent, after ANY history of injections (interleaved with arbitrary runs / pulls:
      steps that keep labels, classes and wiring), writing any earlier expression again hands back the
@@ -66,35 +82,51 @@ Section C18.
   Theorem C18_reuse : forall st0 qs st q n,
     hist st0 qs st -> s_parent val st0 = true -> In (q, n) qs ->
     inject st q = (st, n, Done).
-  Proof. exact (reuse val pyop py_str is_none none_val hash). Qed.
+  Proof. exact (reuse val pyop py_repr none_val hash). Qed.
 
   (* pulls and runs are such skeleton-keeping steps *)
   Theorem C18_pull_keeps_skeleton : forall st n st' p, pull st n = (st', p) -> same_skel val st st'.
-  Proof. exact (pull_skel val pyop is_none none_val). Qed.
+  Proof. exact (pull_skel val pyop none_val). Qed.
 
   (* outside a parent there is nothing to look up: every writing makes a new node *)
   Theorem C18_no_parent_fresh : forall st q,
     s_parent val st = false ->
     exists st' o, inject st q = (st', List.length (s_nodes val st), o) /\
                   List.length (s_nodes val st') = S (List.length (s_nodes val st)).
-  Proof. exact (no_parent_fresh val pyop py_str is_none none_val hash). Qed.
+  Proof. exact (no_parent_fresh val pyop py_repr none_val hash). Qed.
 
+  (* environment: hash and repr are injective (CPython; repr on the operand pool) *)
   Hypothesis hash_inj : forall a b, hash a = hash b -> a = b.
+  Hypothesis repr_inj : forall v1 v2, py_repr v1 = py_repr v2 -> v1 = v2.
 
-  (* C18_distinct_partial.  "Two different expressions never share a node" holds under the guards:
-       str_inj      the raw operands written in this parent are str-injective   (fails: S17)
-       raw_vs_chan  no raw operand prints like a channel's scoped label
+  (* C18_distinct_raw (S17 repaired).  One receiver, one operator, two raw operands: one node only if
+     the operands are equal -- x + 1 vs x + '1', x[0] vs x['0'], x > True vs x > 'True' never share. *)
+  Theorem C18_distinct_raw : forall st c self v1 v2,
+    inj_label st (mkQ c self [OR v1] true) = inj_label st (mkQ c self [OR v2] true) -> v1 = v2.
+  Proof. exact (one_raw_operand_inj val py_repr hash hash_inj repr_inj). Qed.
+
+  (* the same for arbitrary operands: they must at least PRINT alike *)
+  Theorem C18_one_operand : forall st c self o1 o2,
+    inj_label st (mkQ c self [o1] true) = inj_label st (mkQ c self [o2] true) ->
+    other_label val py_repr st o1 = other_label val py_repr st o2.
+  Proof. exact (same_receiver_label_inj val py_repr hash hash_inj). Qed.
+
+  (* C18_distinct_partial.  "Two different expressions never share a node", for ALL requests of a
+     history, still needs label hygiene, because the label is an unescaped "_"-join of texts:
+       raw_vs_chan  no raw operand's repr is a channel's scoped label (true for the pool: reprs of
+                    strings carry quotes, labels do not)
        scoped_inj   the channels involved have distinct scoped labels
        frame_inj    gluing the rendered pieces with "_" is unambiguous
-     Missing from the full statement: exactly these four; each is necessary (refutations below). *)
+     Missing from the full statement: frame_inj is NOT implied by unique sibling labels (refutation
+     below: four distinct identifier labels); the first two hold for identifier labels and pool operands. *)
   Theorem C18_distinct_partial : forall st0 qs st q1 q2 n,
     hist st0 qs st -> s_parent val st0 = true ->
     In (q1, n) qs -> In (q2, n) qs ->
     flags_ok val (map fst qs) ->
-    str_inj val py_str (map fst qs) -> raw_vs_chan val py_str st (map fst qs) ->
-    scoped_inj val st (map fst qs) -> frame_inj val py_str st (map fst qs) ->
+    raw_vs_chan val py_repr st (map fst qs) ->
+    scoped_inj val st (map fst qs) -> frame_inj val py_repr st (map fst qs) ->
     q1 = q2.
-  Proof. exact (distinct val pyop py_str is_none none_val hash hash_inj). Qed.
+  Proof. exact (distinct val pyop py_repr none_val hash hash_inj repr_inj). Qed.
 
   (* ... and then the node handed back computes the WRITTEN operation on the WRITTEN operands
      (together with C18_value / C18_table: no mix-up of values) *)
@@ -102,117 +134,64 @@ Section C18.
     hist st0 qs st -> s_parent val st0 = true -> s_nodes val st0 = [] ->
     In (q, n) qs ->
     flags_ok val (map fst qs) ->
-    str_inj val py_str (map fst qs) -> raw_vs_chan val py_str st (map fst qs) ->
-    scoped_inj val st (map fst qs) -> frame_inj val py_str st (map fst qs) ->
+    raw_vs_chan val py_repr st (map fst qs) ->
+    scoped_inj val st (map fst qs) -> frame_inj val py_repr st (map fst qs) ->
     exists r, nth_error (s_nodes val st) n = Some r /\ n_cls val r = q_cls val q /\
               n_in val r = q_inputs val q.
-  Proof. exact (wiring_partial val pyop py_str is_none none_val hash hash_inj). Qed.
-
-  (* the everyday case needs no framing guard: two one-operand operations of one class on one
-     receiver can only collide when the two operands PRINT alike *)
-  Theorem C18_one_operand_partial : forall st c self o1 o2,
-    inj_label st (mkQ c self [o1] true) = inj_label st (mkQ c self [o2] true) ->
-    other_label val py_str st o1 = other_label val py_str st o2.
-  Proof. exact (same_receiver_label_inj val py_str hash hash_inj). Qed.
-
-  (* The Slice node (x[a:b:c] with a channel among a, b, c) agrees with python's slice where both
-     start and stop are given, or only stop ... *)
-  Theorem C18_slice_partial : forall start stop step,
-    is_none stop = false ->
-    (is_none start = false ->
-       slice_fun val pyop is_none [start; stop; step] = pyop PSliceCtor [start; stop; step]) /\
-    (is_none start = true -> is_none step = true ->
-       slice_fun val pyop is_none [start; stop; step] = pyop PSliceCtor [stop]).
-  Proof.
-    intros start stop step B. split.
-    - intros A. exact (slice_fun_full val pyop is_none start stop step A B).
-    - intros A C. exact (slice_fun_stop_only val pyop is_none start stop step A B C).
-  Qed.
-
-  (* ... and refuses x[a:], x[::c], x[:b:c], which python accepts (known finding C18-slice-open-ended) *)
-  Theorem C18_slice_refuted : forall start stop step,
-    (is_none start = false /\ is_none stop = true) \/
-    (is_none start = true /\ is_none stop = true) \/
-    (is_none start = true /\ is_none stop = false /\ is_none step = false) ->
-    slice_fun val pyop is_none [start; stop; step] = inr "ValueError".
-  Proof. exact (slice_fun_refuses val pyop is_none). Qed.
+  Proof. exact (wiring_partial val pyop py_repr none_val hash hash_inj repr_inj). Qed.
 End C18.
 Print Assumptions C18_wiring.
+Print Assumptions C18_autorun_waits.
 Print Assumptions C18_value.
 Print Assumptions C18_pull_value.
+Print Assumptions C18_slice.
 Print Assumptions C18_reuse.
 Print Assumptions C18_pull_keeps_skeleton.
 Print Assumptions C18_no_parent_fresh.
+Print Assumptions C18_distinct_raw.
+Print Assumptions C18_one_operand.
 Print Assumptions C18_distinct_partial.
 Print Assumptions C18_wiring_partial.
-Print Assumptions C18_one_operand_partial.
-Print Assumptions C18_slice_partial.
-Print Assumptions C18_slice_refuted.
 
-(* ---- the unguarded statements are FALSE of the faithful model (and of the code) --------------------
-   Concrete instance: values are tagged text, hash is the identity, str() / + / * / slice / [] are the
-   rows of w_strs / w_rows (what CPython answers).  Users x=1, y=2, l=[1,2,3,4], i=1 (i not yet run), z=(p=3, q=0) (not yet run). *)
-
-(* S17: x + 1 and x + '1' are different expressions, get ONE node, and the mix-up changes the value:
-   python says x + '1' raises TypeError, the shared node answers 2.  Violates str_inj. *)
-Theorem C18_distinct_refuted : exists qs st q1 q2 n,
-  w_hist w_st0 qs st /\ In (q1, n) qs /\ In (q2, n) qs /\ q1 <> q2 /\
-  w_str "int:1" = w_str "str:'1'" /\
-  w_pyop PAdd ["int:1"; "str:'1'"] = inr "TypeError" /\
-  snd (w_pull st n) = PVal "int:2".
-Proof. exact w_refuted_str. Qed.
-Print Assumptions C18_distinct_refuted.
-
-(* a channel operand and the string that spells its scoped label: x + y  vs  x + 'y__user_input'.
-   Violates raw_vs_chan. *)
-Theorem C18_distinct_refuted_channel_vs_string : exists qs st q1 q2 n,
-  w_hist w_st0 qs st /\ In (q1, n) qs /\ In (q2, n) qs /\ q1 <> q2.
-Proof. exact w_refuted_channel_vs_string. Qed.
-Print Assumptions C18_distinct_refuted_channel_vs_string.
-
-(* "_" both separates the pieces and occurs inside them: l[i:'1_2'] vs l[i:1:'2_None'] share the Slice
-   node.  Violates frame_inj. *)
+(* ---- what the repaired code still violates ------------------------------------------------------------
+   Concrete instance: values are tagged text, hash is the identity, repr / + / slice / [] are the rows of
+   w_reprs / w_rows (what CPython answers).  Known finding C18-underscore-framing.
+   "_" both separates the pieces and occurs inside labels: with UserInput nodes a=1, d=10,
+   c__user_input_Add_d=100, a__user_input_Add_c=1000 (distinct identifiers), the expressions
+   a + c__user_input_Add_d  and  a__user_input_Add_c + d  get ONE node, and the mix-up changes the
+   value: python says 1000 + 10 = 1010, the shared node answers 101.  Violates frame_inj only. *)
 Theorem C18_distinct_refuted_framing : exists qs st q1 q2 n,
-  w_hist w_st0 qs st /\ In (q1, n) qs /\ In (q2, n) qs /\ q1 <> q2.
+  w_hist w_st0 qs st /\ In (q1, n) qs /\ In (q2, n) qs /\ q1 <> q2 /\
+  w_pyop PAdd ["int:1000"; "int:10"] = inl "int:1010" /\
+  snd (w_pull st n) = PVal "int:101".
 Proof. exact w_refuted_framing. Qed.
 Print Assumptions C18_distinct_refuted_framing.
 
-(* known finding C18-slice-premature-default: l[i:4] written while i holds no data.  The Slice node's
-   start keeps its default None, so the node is "ready", runs, and GetItem already answers l[:4]
-   = [1,2,3,4] although the operand i has no value yet (python's l[i:4] with i = 1 is [2,3,4]). *)
-Theorem C18_slice_default_refuted : exists st1 ns o1 st2 ng o2,
-  w_inject w_st0 (@mkQ tval CSlice w_l [OC w_i; OR "int:4"; OR "NoneType:None"] false) = (st1, ns, o1) /\
-  w_inject st1 (@mkQ tval CGetItem w_l [OC (CN ns)] true) = (st2, ng, o2) /\
-  chan_value tval st2 w_i = None /\
-  chan_value tval st2 (CN ng) = Some "list:[1, 2, 3, 4]".
-Proof. exact w_slice_default. Qed.
-Print Assumptions C18_slice_default_refuted.
-
-(* composite cache (S5, property C05) seen through injection: after one successful pull in a Workflow,
-   with no child added since and the same value-holding children in the data tree, a second pull is a
-   cache hit of the Workflow itself and runs NOTHING upstream; +(-z.p), written before z had run, never
-   gets its input although python gives -3 (known finding C18-parent-cache-skips-pull).
-   z is a two-output user node (p = 3, q = 0) that has not run. *)
-Theorem C18_pull_cache_refuted : exists st1 a o1 st2 b o2 st3 c o3 st4 v st5,
-  w_inject w_st0 (@mkQ tval CNegative (CU 4 0) [] true) = (st1, a, o1) /\
-  w_inject st1 (@mkQ tval CPositive (CN a) [] true) = (st2, b, o2) /\
-  w_inject st2 (@mkQ tval CNegative (CU 4 1) [] true) = (st3, c, o3) /\
-  w_pull st3 c = (st4, PVal v) /\ w_pull st4 b = (st5, PUp) /\
-  w_pyop PNeg ["int:3"] = inl "int:-3" /\ w_pyop PPos ["int:-3"] = inl "int:-3".
-Proof. exact w_pull_cache. Qed.
-Print Assumptions C18_pull_cache_refuted.
+(* ---- the repaired defects as facts of the model (regression witnesses) ---------------------------------
+   x + 1 and x + '1' get two nodes, the second raising python's TypeError when written; l[i:4] written
+   while i holds no data does not run, and once pulled it is python's l[1:4]. *)
+Example C18_regressions :
+  (exists st1 st2, w_inject w_st0 (@mkQ tval CAdd w_x [OR "int:1"] true) = (st1, 0, Done) /\
+                   w_inject st1 (@mkQ tval CAdd w_x [OR "str:'1'"] true) = (st2, 1, Raised "TypeError")) /\
+  (exists st1 st2 st3,
+     w_inject w_st0 (@mkQ tval CSlice w_l [OC w_i; OR "int:4"; OR "NoneType:None"] false) = (st1, 0, Done) /\
+     w_inject st1 (@mkQ tval CGetItem w_l [OC (CN 0)] true) = (st2, 1, Done) /\
+     chan_value tval st2 (CN 0) = None /\ chan_value tval st2 (CN 1) = None /\
+     w_pull st2 1 = (st3, PVal "list:[2, 3, 4]")).
+Proof. exact w_regressions. Qed.
 
 (* ---- non-vacuity: the hypotheses of the guarded theorems are met by a non-trivial history
-   (raw operand, channel operand, nested expression (x + 1) * 4 = 8, repetition) ------------------------- *)
+   (raw operand, channel operand, nested expression (x + 1) * 4 = 8, repetition); repr = the injective
+   tagged text itself ------------------------------------------------------------------------------------- *)
 Example C18_hyps_hold :
   let q1 := @mkQ tval CAdd w_x [OR "int:1"] true in
   let q2 := @mkQ tval CAdd w_x [OC w_y] true in
   let q3 := @mkQ tval CMultiply (CN 0) [OR "int:4"] true in
   exists st, let qs := [(q1, 0); (q2, 1); (q3, 2); (q1, 0)] in
-    w_hist w_st0 qs st /\ s_parent tval w_st0 = true /\ s_nodes tval w_st0 = [] /\
+    e_hist w_st0 qs st /\ s_parent tval w_st0 = true /\ s_nodes tval w_st0 = [] /\
     (forall a b : string, (fun s : string => s) a = (fun s => s) b -> a = b) /\
     flags_ok tval (map fst qs) /\
-    str_inj tval w_str (map fst qs) /\ raw_vs_chan tval w_str st (map fst qs) /\
-    scoped_inj tval st (map fst qs) /\ frame_inj tval w_str st (map fst qs) /\
+    raw_vs_chan tval (fun s => s) st (map fst qs) /\
+    scoped_inj tval st (map fst qs) /\ frame_inj tval (fun s => s) st (map fst qs) /\
     List.length (s_nodes tval st) = 3 /\ chan_value tval st (CN 2) = Some "int:8".
 Proof. exact w_hyps_hold. Qed.
